@@ -777,8 +777,8 @@ func c26ExhSets() []c26ExhSet {
 
 func TestVerif_C26_Exhaustive(t *testing.T) {
 	vk := vkBegin(t, "C26")
-	depth := vkN(7, 11)
-	vk.Rule(fmt.Sprintf("for each tiny parameter set, every vote sequence of length <= %d over the alphabet propose in {none, vk26bb (registered), vk26ccc (unsupported), 8-char name (too long)} x delay 0..3 x approve {no,yes}: each symbol is tried at every reachable node (illegal ones must be rejected and are not extended); every maximal path is checked with the declarative history checker. Non-trivial = path with a resolved proposal; distinct by set + path", depth))
+	budget := int64(vkN(3000, 100000))
+	vk.Rule(fmt.Sprintf("for each tiny parameter set, every vote sequence up to the largest length (<= 14) whose tree has <= %d nodes, over the alphabet propose in {none, vk26bb (registered), vk26ccc (unsupported), 8-char name (too long)} x delay 0..3 x approve {no,yes}: each symbol is tried at every reachable node (illegal ones must be rejected and are not extended); every maximal path is checked with the declarative history checker. Non-trivial = path with a resolved proposal; distinct by set + path", budget))
 	sets := c26ExhSets()
 	type sym = UpgradeVote
 	var alphabet []sym
@@ -802,6 +802,32 @@ func TestVerif_C26_Exhaustive(t *testing.T) {
 				params: map[protocol.ConsensusVersion]c26Params{"vk26a": set.A, "vk26bb": set.B}}
 			restore := c26Register(w)
 			defer restore()
+			// largest depth whose tree (counted with the model alone) fits the node budget
+			var count func(m c26Model, r basics.Round, d, depth int, n *int64)
+			count = func(m c26Model, r basics.Round, d, depth int, n *int64) {
+				*n++
+				if d == depth || *n > budget {
+					return
+				}
+				if _, ok := w.params[m.Current]; !ok {
+					return
+				}
+				for _, v := range alphabet {
+					if nx, ok, _, _ := m.step(w, r+1, v); ok {
+						count(nx, r+1, d+1, depth, n)
+					}
+				}
+			}
+			depth := 4
+			for d := 5; d <= 14; d++ {
+				var n int64
+				count(c26Model{Current: "vk26a"}, 0, 0, d, &n)
+				if n > budget {
+					break
+				}
+				depth = d
+			}
+			vk.Labelf("exh:depth=%d", depth)
 			gen := c26Genesis("vk26a", 0)
 			var path []string
 			var steps []c26Step
